@@ -13,7 +13,10 @@ Inductive case :=
 | KWait (pos : nat) (sc : wscen) (woken : bool) (nev : nat)
 | KFan (n target pos : nat) (sc : wscen) (woken : bool) (nev : nat)
 | KRearm (b1 b2 : nat) (copied : nat)
-| KRange (skipped : bool).   (* /repo's own journal iterator: a flush right before the last look of a read-to-end *)
+| KRange (skipped : bool)
+(* the real client's Select in stream mode from `tail` over a partition of n records; rounds: records appended in the
+   gap before each request reaches the server / while it waits; delivered: what the handler received *)
+| KSelect (n : nat) (rounds : list (nat * nat)) (delivered : list nat).   (* /repo's own journal iterator: a flush right before the last look of a read-to-end *)
 
 Definition round_eqb (a b : list nat * nat) : bool := list_eqb Nat.eqb (fst a) (fst b) && Nat.eqb (snd a) (snd b).
 
@@ -45,6 +48,7 @@ Definition check (c : case) : bool :=
   | KRearm b1 b2 copied =>
       Nat.eqb (length (dst (run code_applies_filter [] (init [] 0) (rearm_sched b1 b2)))) copied
   | KRange skipped => Bool.eqb skipped code_reloads_count_range
+  | KSelect n rounds delivered => list_eqb Nat.eqb (sel_run code_select_advances STail n rounds) delivered
   end.
 
 Definition mismatches (l : list case) : list nat := mismatches_of check l.
